@@ -212,6 +212,7 @@ structure Pre (m m0 : Mach) : Prop where
   heapLimit : m0.heapLimit = m.heapLimit
   dict : m0.dict = m.dict
   codeLen : m0.code.length = m.code.length
+  code : (∀ name, m.code[m.ctx.ip]? ≠ some (.resolve name)) → m0.code = m.code
   meterLo : m.meter < m0.meter
   meterHi : m0.meter ≤ m.meter + 2
   meterLim : ∀ N, m.insnLimit = some N → m0.meter ≤ N
@@ -271,7 +272,7 @@ theorem step_shape (np : String → Option Prog) (m : Mach) (w : WF m) :
     have early1 : ∀ (o : Outcome Unit), o ≠ .ok () → StepShape np m (o, { m with meter := m.meter + 1 }) :=
       fun o ho => .early rfl rfl ho ⟨by simp, by simp⟩ (fun N hN' _ => by have := hlt1 N hN'; simp; omega) ⟨rfl, rfl⟩
     have pre1 : Pre m { m with meter := m.meter + 1 } :=
-      ⟨rfl, rfl, rfl, rfl, rfl, rfl, rfl, by simp, by simp, fun N hN' => by have := hlt1 N hN'; simp; omega⟩
+      ⟨rfl, rfl, rfl, rfl, rfl, rfl, rfl, fun _ => rfl, by simp, by simp, fun N hN' => by have := hlt1 N hN'; simp; omega⟩
     split
     · exact early1 _ (by simp)
     · rename_i name hop
@@ -294,7 +295,7 @@ theorem step_shape (np : String → Option Prog) (m : Mach) (w : WF m) :
           obtain ⟨e2, hlt2⟩ := meterIncrease_ok _ _ hm2
           subst e2
           have pre2 : Pre m { m with meter := m.meter + 1 + 1, code := (m.code.set m.ctx.ip op) } :=
-            ⟨rfl, rfl, rfl, rfl, rfl, rfl, by simp, by simp; omega, by simp, fun N hN' => by have := hlt2 N hN'; simp at this ⊢; omega⟩
+            ⟨rfl, rfl, rfl, rfl, rfl, rfl, by simp, fun hno => absurd hop (hno name), by simp; omega, by simp, fun N hN' => by have := hlt2 N hN'; simp at this ⊢; omega⟩
           exact .exec _ pre2 (exec_shape np _ op (pre2.wf w))
     · rename_i op _ hop
       exact .exec _ pre1 (exec_shape np _ op (pre1.wf w))
@@ -325,5 +326,52 @@ theorem undoSeg_app (seg ℓ : List RStep) (c c' : Core)
       cases s <;> simp [isSetIp] at hs <;> simp only [List.cons_append, undoSeg, heq] <;> exact this
     · cases hu
     · cases hu
+
+variable (np : String → Option Prog)
+
+/-- facts about one `step`, whatever its outcome -/
+theorem step_frame (m : Mach) (w : WF m) :
+    ((step np m).2.insnLimit = m.insnLimit ∧ (step np m).2.stackLimit = m.stackLimit) ∧
+    (∀ N, m.insnLimit = some N → m.meter ≤ N → (step np m).2.meter ≤ N) ∧
+    (∀ S, m.stackLimit = some S → (step np m).2.ds.length ≤ max S m.ds.length) ∧
+    (step np m).2.heap.length = m.heap.length ∧
+    ((step np m).1 = .ok () → m.meter < (step np m).2.meter) ∧
+    WF (step np m).2 := by
+  have sh := step_shape np m w
+  cases sh with
+  | early hc hl ne hm hN lims =>
+    have hds := congrArg Core.ds hc; have hheap := congrArg Core.heap hc
+    simp only [core] at hds hheap
+    have wf' : WF (step np m).2 := by
+      have h1 := congrArg Core.ctx hc; have h3 := congrArg Core.rs hc
+      have h4 := congrArg Core.loops hc; have h5 := congrArg Core.special hc
+      simp only [core] at h1 h3 h4 h5
+      exact ⟨by rw [h1, hds]; exact w.ds, by rw [h1, h3]; exact w.rs, by rw [h1, h4]; exact w.ls, by rw [h1, h5]; exact w.ss⟩
+    exact ⟨⟨lims.2, lims.1⟩, hN, fun S _ => by show (step np m).2.ds.length ≤ _; rw [hds]; omega,
+      by show (step np m).2.heap.length = _; rw [hheap], fun h => absurd h ne, wf'⟩
+  | exec m0 p s =>
+    have hds0 : m0.ds = m.ds := by have := congrArg Core.ds p.core; simpa [core] using this
+    have hheap0 : m0.heap = m.heap := by have := congrArg Core.heap p.core; simpa [core] using this
+    have common : ∀ (seg : List RStep) (mp : Mach), Rev m0 mp seg →
+        (mp.insnLimit = m.insnLimit ∧ mp.stackLimit = m.stackLimit) ∧
+        (∀ N, m.insnLimit = some N → m.meter ≤ N → mp.meter ≤ N) ∧
+        (∀ S, m.stackLimit = some S → mp.ds.length ≤ max S m.ds.length) ∧
+        mp.heap.length = m.heap.length ∧ m.meter < mp.meter ∧ WF mp := by
+      intro seg mp rv
+      refine ⟨⟨by rw [rv.fr.insnLimit, p.insnLimit], by rw [rv.fr.stackLimit, p.stackLimit]⟩,
+        fun N hN _ => by rw [rv.fr.meter]; exact p.meterLim N hN,
+        fun S hS => by have := rv.fr.dsBound S (by rw [p.stackLimit]; exact hS); rw [hds0] at this; exact this,
+        by rw [rv.fr.heapLen, hheap0], by rw [rv.fr.meter]; exact p.meterLo, rv.wf (p.wf w)⟩
+    cases s with
+    | fail seg mp rv e ne =>
+      have c := common seg mp rv
+      rw [e]
+      exact ⟨c.1, c.2.1, c.2.2.1, c.2.2.2.1, fun h => absurd h ne, c.2.2.2.2.2⟩
+    | done seg mp n rv e =>
+      have c := common seg mp rv
+      rw [e]
+      have wmp := c.2.2.2.2.2
+      exact ⟨c.1, c.2.1, c.2.2.1, c.2.2.2.1, fun _ => c.2.2.2.2.1, ⟨wmp.ds, wmp.rs, wmp.ls, wmp.ss⟩⟩
+
 
 end Xeh.Mach
